@@ -61,6 +61,7 @@ import PdshVerif.Relay.Simulation
 import PdshVerif.Relay.DomIff
 import PdshVerif.Relay.IndexSim
 import PdshVerif.Relay.Poll
+import PdshVerif.Relay.XPoll
 
 namespace PdshVerif.C05
 open PdshVerif.Relay
@@ -581,6 +582,89 @@ theorem read_error_keeps_what_was_read {β : Type} (s : Stream β) (rc : Int) :
     (handleFail s rc).1 = -1 ∧ (handleFail s rc).2.1.buf = s.buf ∧ (handleFail s rc).2.1.pipe = s.pipe ∧
     (handleFail s rc).2.1.closed = true ∧ (handleFail s rc).2.2 = (rc, [diag]) :=
   ⟨rfl, rfl, rfl, rfl, rfl⟩
+
+/-! ### `xpoll()` and ONE ITERATION of the loop (Relay/XPoll.lean): where the events of `pollStep` come from
+
+  The LTS above takes "which descriptors an xpoll return reports" as the environment's choice.  `XPoll.xpoll`
+  (the HAVE_POLL flavour of src/common/xpoll.c) and `XPoll.loopIter` (the loop body of `_rsh_thread` up to the
+  handler calls) say how that choice comes out of what poll(2) answers; `Iter.toPEv` is the LTS event.  Since
+  the theorems above hold for EVERY event list, they hold for every sequence of kernel answers. -/
+
+/-- A DESCRIPTOR THE KERNEL REPORTS READABLE, IN ERROR OR HUNG UP GETS ITS HANDLER CALLED in that iteration -- and no
+    other does: stdout's iff POLLIN|POLLERR|POLLHUP on entry 0, stderr's iff -S and the same on entry 1 -- whatever
+    stale `revents` the array held and whatever count poll(2) returned.  (So data and EOF -- a pipe's EOF is
+    POLLHUP without POLLIN -- are both picked up; xpoll's translation POLLHUP -> XPOLLERR and dsh.c's mask
+    `XPOLLREAD|XPOLLERR` are both needed for that.) -/
+theorem ready_descriptor_gets_its_handler (sopt tAfter : Bool) (fdO fdE : Int) (staleO staleE : Nat) (rv : Int)
+    (hrv : rv ≠ -1) (r0 r1 : Nat) (rest : List Nat) (capO capE : Option Nat) :
+    (XPoll.loopIter sopt false tAfter fdO fdE staleO staleE (.ok rv (r0 :: r1 :: rest))).1.toPEv capO capE =
+      some (.poll
+        (if XPoll.has r0 Gen.XP_POLLIN || XPoll.has r0 Gen.XP_POLLERR || XPoll.has r0 Gen.XP_POLLHUP
+          then some capO else none)
+        (if sopt && (XPoll.has r1 Gen.XP_POLLIN || XPoll.has r1 Gen.XP_POLLERR || XPoll.has r1 Gen.XP_POLLHUP)
+          then some capE else none)) := by
+  rw [XPoll.loopIter_dispatch sopt tAfter fdO fdE staleO staleE rv hrv r0 r1 rest]
+  rfl
+
+/-- a descriptor the kernel says nothing about (in particular one the worker has closed: fd = -1, which poll(2)
+    skips) is not handled -/
+theorem silent_descriptor_not_handled (sopt tAfter : Bool) (fdO fdE : Int) (staleO staleE : Nat) (rv : Int)
+    (hrv : rv ≠ -1) (capO capE : Option Nat) :
+    (XPoll.loopIter sopt false tAfter fdO fdE staleO staleE (.ok rv [0, 0])).1.toPEv capO capE =
+      some (.poll none none) := by
+  rw [ready_descriptor_gets_its_handler sopt tAfter fdO fdE staleO staleE rv hrv 0 0 [] capO capE]
+  cases sopt <;> rfl
+
+/-- AN INTERRUPTED POLL IS RETRIED -- by the loop, not by xpoll (which hands -1/EINTR through) -- unless the
+    command has timed out; every other poll error, and a timeout, end the loop (the worker gives the host up:
+    `abandoned_stream_relays_what_was_read`) -/
+theorem interrupted_poll_is_retried (sopt tAfter : Bool) (fdO fdE : Int) (staleO staleE : Nat) (e : Nat)
+    (capO capE : Option Nat) :
+    (XPoll.loopIter sopt false tAfter fdO fdE staleO staleE (.fail e)).1.toPEv capO capE =
+      if e = Gen.XP_EINTR ∧ tAfter = false then some .eintr else none := by
+  rw [XPoll.loopIter_error]
+  by_cases he : e = Gen.XP_EINTR <;> cases tAfter <;> simp [he, XPoll.Iter.toPEv]
+
+/-- WITHIN ONE ITERATION THE STDOUT HANDLER RUNS BEFORE THE STDERR HANDLER: the worker's stdio calls of one
+    `.poll` event are those of the stdout handler (if reported), then those of the stderr handler (if reported) --
+    the order the correspondence observes on the real `_rsh_thread` (reads after each poll return) -/
+theorem one_iteration_stdout_before_stderr {β : Type} (ops : BufOps β) (cfg : Cfg) (host : Bytes) (w : Worker β)
+    (o e : Option (Option Nat)) :
+    ∃ a b : List Em, (pollStep ops cfg host w (.poll o e)).log =
+      w.log ++ a.map (fun x => (false, x)) ++ b.map (fun x => (true, x)) := by
+  by_cases hl : w.loopLeft = true
+  · exact ⟨[], [], by simp [pollStep, hl]⟩
+  · simp only [pollStep, hl, Bool.false_eq_true, ↓reduceIte]
+    cases o with
+    | none =>
+      cases e with
+      | none => exact ⟨[], [], by simp [Worker.onReported]⟩
+      | some ce => exact ⟨[], _, by simp only [Worker.onReported, Worker.on, ↓reduceIte, List.map_nil, List.append_nil]; rfl⟩
+    | some co =>
+      cases e with
+      | none => exact ⟨_, [], by simp only [Worker.onReported, Worker.on, Bool.false_eq_true, ↓reduceIte, List.map_nil, List.append_nil]; rfl⟩
+      | some ce => exact ⟨_, _, by simp only [Worker.onReported, Worker.on, Bool.false_eq_true, ↓reduceIte]; rfl⟩
+
+/-- xpoll's contract as far as callers rely on it: invalid arguments never reach poll(2) (-1/EINVAL, array
+    untouched); a failing poll(2) is handed through with the kernel's errno, NOT retried; success hands the kernel's
+    count through with errno = 0; the timeout reaches poll(2) unchanged -/
+theorem xpoll_contract (xs : List XPoll.XFd) (nfds timeout : Int) :
+    (nfds ≤ 0 → ∀ k, (XPoll.xpoll (some xs) nfds timeout k).rv = -1 ∧
+        (XPoll.xpoll (some xs) nfds timeout k).errno = Gen.XP_EINVAL ∧
+        (XPoll.xpoll (some xs) nfds timeout k).passed = none ∧ (XPoll.xpoll (some xs) nfds timeout k).xfds = xs) ∧
+    (0 < nfds → ∀ e, (XPoll.xpoll (some xs) nfds timeout (.fail e)).rv = -1 ∧
+        (XPoll.xpoll (some xs) nfds timeout (.fail e)).errno = e) ∧
+    (0 < nfds → ∀ rv revs, (XPoll.xpoll (some xs) nfds timeout (.ok rv revs)).rv = rv ∧
+        (XPoll.xpoll (some xs) nfds timeout (.ok rv revs)).errno = 0) ∧
+    (0 < nfds → ∀ k, ∃ p, (XPoll.xpoll (some xs) nfds timeout k).passed = some (p, timeout)) :=
+  XPoll.xpoll_rv_errno xs nfds timeout
+
+/-- non-vacuity: data on stdout + hang-up on stderr under -S: both handlers, stdout's first; without -S only
+    stdout's; EOF of a pipe (POLLHUP alone) on stdout is handled; EINTR is retried -/
+example : (XPoll.loopIter true false false 5 6 7 7 (.ok 2 [Gen.XP_POLLIN, Gen.XP_POLLHUP])).1.calls = [false, true] ∧
+    (XPoll.loopIter false false false 5 (-1) 0 0 (.ok 2 [Gen.XP_POLLIN, Gen.XP_POLLHUP])).1.calls = [false] ∧
+    (XPoll.loopIter true false false 5 6 0 0 (.ok 1 [Gen.XP_POLLHUP, 0])).1.calls = [false] ∧
+    (XPoll.loopIter true false false 5 6 0 0 (.fail Gen.XP_EINTR)).1 = .again := by decide
 
 /-! ### outside the domain: what the code does with lines over 128 KiB and with NUL bytes
 
